@@ -147,7 +147,7 @@ def run_plain(pool, case):
     for s, (name, us) in enumerate(case):
         sources[name] = []
         for u, o in enumerate(us):
-            uri = "https://example.invalid/%s/%d" % (name, u)
+            uri = "https://example.invalid/%s/%s%d" % (name, "zyxwvutsrq"[u % 10], u)   # list order is NOT lexical order
             sources[name].append(uri)
             table[uri] = o
     calls = []
@@ -486,7 +486,7 @@ def replay(ctx, rp):
         for name, us in item["sources"]:
             sources[name] = []
             for u, o in enumerate(us):
-                uri = "https://example.invalid/%s/%d" % (name, u)
+                uri = "https://example.invalid/%s/%s%d" % (name, "zyxwvutsrq"[u % 10], u)   # list order is NOT lexical order
                 sources[name].append(uri)
                 table[uri] = o
 
